@@ -34,7 +34,7 @@ func (e *Engine) fmtDecimal(s *State, x Term, width int) (Term, error) {
 	}
 	e.u.DeclareFun(fn, []string{SInt}, SString)
 	e.u.DeclareFun(inv, []string{SString}, SInt)
-	e.abstract("model of fmt %d / %0Nd (trusted): the decimal text of an integer contains no '/' and no ':', is not empty, and determines the integer")
+	e.abstract("model of fmt %d / %0Nd (trusted): the decimal text of an integer contains no '/', ':' and is not empty, \".\" or \"..\", and it determines the integer")
 	if s.quant > 0 {
 		return Term{}, fmt.Errorf("fmtd under a quantifier is not supported (use a lemma's top-level forall variables)")
 	}
@@ -44,6 +44,8 @@ func (e *Engine) fmtDecimal(s *State, x Term, width int) (Term, error) {
 	s.assume(Not(App("str.contains", SBool, r, StrLit("/"))))
 	s.assume(Not(App("str.contains", SBool, r, StrLit(":"))))
 	s.assume(Ge(App("str.len", SInt, r), IntLit(1)))
+	s.assume(Not(Eq(r, StrLit("."))))
+	s.assume(Not(Eq(r, StrLit(".."))))
 	s.assume(Eq(App(inv, SInt, r), x))
 	return r, nil
 }
